@@ -5,8 +5,10 @@ CONSTANTS
   MaxTail = 0
   ElemTail = 0
   NestTail = 0
+  DeepTail = -1
   Nums = {2, 3}
   MaxOperands = 4
   WithNeg = TRUE
+  CmpOps = {}
 INVARIANTS TypeOK CalcIsPrecedenceClimbing ExportCalc
 PROPERTY Terminates
